@@ -261,6 +261,35 @@ pub fn run(ctx: &Ctx) -> i32 {
         }
     });
     let mut ev = ev;
+    // one LARGE sequence (600 000 keys; thorough 3 000 000) through the entry points that know the number of items in advance
+    // (from_iter over an exact-size iterator, extend_iter, extend_stream) against the plain insert loop: whatever an entry point
+    // derives from a size hint must not reach the bytes
+    {
+        let nbig: u64 = ctx.tier.pick(600_000, 3_000_000);
+        let kv: Kv = (0..nbig).map(|i| (format!("{:09}", i * 7).into_bytes(), (i * 2654435761) % 1000)).collect();
+        let zero: Kv = kv.iter().map(|(k, _)| (k.clone(), 0)).collect();
+        let mut refs: Vec<(&str, &Kv, Option<Vec<u8>>)> = vec![("map", &kv, None), ("set", &zero, None)];
+        for (what, seq, reference) in refs.iter_mut() {
+            *reference = guard(|| build::build(Front::RawMemoryInsert, seq)).ok().and_then(|r| r.ok());
+            let fronts: Vec<Front> = if *what == "map" { vec![Front::MapFromIter, Front::RawFromIter, Front::MapExtendIter, Front::MapExtendStream] } else { vec![Front::SetFromIter, Front::SetInsert, Front::SetExtendIter] };
+            for f in fronts {
+                ev.eval(Some(crate::rng::fnv_u64(crate::rng::fnv(format!("{:?}", f).as_bytes()), nbig)));
+                ev.count("paths-compared");
+                ev.count("paths-compared:large-sequence");
+                match (guard(|| build::build(f, seq)), reference.as_ref()) {
+                    (Ok(Ok(b)), Some(r)) => {
+                        if &b != r {
+                            let at = b.iter().zip(r.iter()).position(|(x, y)| x != y).unwrap_or(b.len().min(r.len()));
+                            ev.violate("bytes-differ", format!("a sequence of {} keys ({}): path '{:?}' produced {} bytes, the plain insert loop {} bytes; first difference at offset {}", nbig, what, f, b.len(), r.len(), at), J::U(nbig));
+                        }
+                    }
+                    (Ok(Err(e)), _) => ev.violate("build-error", format!("large sequence through {:?}: {}", f, e), J::U(nbig)),
+                    (Err(p), _) => ev.violate("build-panic", format!("large sequence through {:?}: {}", f, p), J::U(nbig)),
+                    (_, None) => ev.violate("build-error", "reference build of the large sequence failed".into(), J::U(nbig)),
+                }
+            }
+        }
+    }
     // (a) rejected inserts are not part of the accepted sequence: a builder that refused calls in between (duplicates
     //     with smaller/equal/larger values, out-of-order keys) must emit the same bytes as a clean build
     // (b) the number of builders alive in the process is not part of the input either
@@ -433,7 +462,7 @@ pub fn run(ctx: &Ctx) -> i32 {
             level: "exploration",
             rule: "one evaluation = one build of a key/value sequence through one API path compared byte-for-byte with the raw Builder::memory()+insert build of the same sequence; paths: 9 map front ends (raw memory/new/extend_iter/extend_stream/from_iter_map, MapBuilder insert/extend_iter/extend_stream, Map::from_iter), 5 set front ends where values are zero (raw add, SetBuilder insert/extend_iter/extend_stream, Set::from_iter), union of 2..5 partial FSTs streamed into a builder (three ways of splitting), set union -> SetBuilder::extend_stream, BufWriter/File/short-writing sinks, repeated builds; builders that refused duplicate/out-of-order calls in between vs a clean build of the accepted sequence; builds while 40 idle builders are alive; builds right after a build that failed with an I/O error on the same thread; a child process whose allocator refuses allocations >= 256 KiB (it may die, but if it builds the bytes must be the same); the 44 cross-process sequences (random maps + word lists, incl. tiny cache geometries where evictions occur) are additionally built in 16 concurrent threads and in 2 child processes and compared by 128-bit digest; non-trivial = every path; distinct = (sequence, path)",
             assumptions: vec!["different cache geometries may legitimately give different bytes; determinism is judged per geometry".into()],
-            floors: vec![("paths-compared", 10_000), ("concurrent-thread-runs", 16), ("child-process-runs", 2), ("sequences-with-rejected-calls", 100), ("builds-after-a-failed-build-on-the-same-thread", 100)],
+            floors: vec![("paths-compared", 10_000), ("paths-compared:large-sequence", 7), ("concurrent-thread-runs", 16), ("child-process-runs", 2), ("sequences-with-rejected-calls", 100), ("builds-after-a-failed-build-on-the-same-thread", 100)],
             exhaustive: Some(false),
         },
     )
